@@ -62,6 +62,10 @@ def cases(tier):
                         routes = ['cls', 'proc', 'cfg', 'potable'] if tier != 'quick' else [('cls', 'proc')[k % 2], ('cfg', 'potable')[(k // 2) % 2]]
                         for route in routes:
                             out.append(dict(m=m, route=route, target=tgt))
+    for fs in (False, True):
+        for m in EK.big_models(fs, tier):
+            for route in ('cls', 'proc', 'cfg', 'potable'):
+                out.append(dict(m=m, route=route, target='DL_POLY_EAM_fs' if fs else 'DL_POLY_EAM'))
     # grid sweep: 2-element model on a (cutoff, n) lattice -- float-awkward steps
     cut = [c / 10.0 for c in range(1, 151, 1 if tier != 'quick' else 7)] + [9.99, 0.05]
     ns = [2, 3, 4, 5, 6, 7, 8, 9, 13, 100, 101, 1001] if tier == 'quick' else list(range(2, 40)) + [100, 101, 500, 1000, 1001, 2001]
